@@ -14,7 +14,7 @@ import numpy as np
 from harness import common, moves, tlc
 
 CLAUSES = {
-    "C09": {"M_AccIffStatus", "M_Member", "M_Length", "M_TimeOrdered", "M_Weight", "M_ShootingPoint", "M_VelRev",
+    "C09": {"M_AccIffStatus", "M_Member", "M_Length", "M_TimeOrdered", "M_FileOrder", "M_Weight", "M_ShootingPoint", "M_VelRev",
             "M_WfContainsSegment", "M_OldUntouched"},
     "C11": {"S_Exchange", "S_ExchangeContent", "M_Member", "M_AccIffStatus", "M_OldUntouched", "M_Length", "M_TimeOrdered"},
 }
@@ -69,7 +69,12 @@ def chain(args):
                       "new": moves.positions(trial) if accept else [], "newrev": [int(bool(s.vel_rev)) for s in trial.phasepoints] if accept else [],
                       "untouched": moves.snapshot(path) == before, "spos": 0, "sidx": 0, "oidx": 0, "weight_ok": True, "seg_ok": True,
                       "status": str(status)}
+                ev["newfile"], ev["newidx"] = [], []
                 if accept:
+                    ids = {}
+                    for s_ in trial.phasepoints:
+                        ev["newfile"].append(ids.setdefault(str(s_.config[0]), len(ids) + 1))
+                        ev["newidx"].append(int(s_.config[1] or 0))
                     w = tis.calc_cv_vector(trial, interfaces, mv, cap=cap)
                     ev["weight_ok"] = bool(w[m - 1] > 0)
                     if kind == "sh":
@@ -237,6 +242,9 @@ def selftest(chk, pid, events, work):
     add("sh: the shooting frame is not in the old path", sh, lambda t: t.__setitem__("spos", t["spos"] + 1), {"M_ShootingPoint"})
     add("sh: one frame too long", sh, lambda t: t.__setitem__("maxlength", len(t["new"]) - 1), {"M_Length"})
     add("sh: a forward frame marked as reversed", sh, lambda t: t["newrev"].__setitem__(len(t["newrev"]) - 1, 1), {"M_VelRev"})
+    def flip_flags(t):
+        t["newrev"] = [1 - x for x in t["newrev"]]
+    add("wf: every frame's velocity flag flipped (a path turned around in place)", wf, flip_flags, {"M_FileOrder", "M_VelRev"})
     add("wf: the new path does not contain the segment", wf, lambda t: t.__setitem__("seg_ok", False), {"M_WfContainsSegment"})
     add("wf: the old path was changed", wf, lambda t: t.__setitem__("untouched", False), {"M_OldUntouched"})
     if pid != "C09" or sw is not None:
